@@ -14,6 +14,7 @@ import (
 	"github.com/linuxboot/fiano/pkg/uefi"
 	"github.com/linuxboot/fiano/pkg/visitors"
 	. "verifharness/common"
+	"verifharness/uefigen"
 )
 
 func Reset() {
@@ -327,10 +328,35 @@ func PTotal(args []string) string {
 	return "ok"
 }
 
+// PBigIdentity builds, inside the worker, a volume holding a file of 16 MiB or more (extended
+// header, FFSv3) with the given alignment attribute, a small neighbour before and optionally after
+// it, and free space; then checks Save(Parse(x)) == x. args: seed, attr (hex), extra body bytes
+// beyond 16 MiB, trailing file (0/1).
+func PBigIdentity(args []string) string {
+	r := NewRng(UnN(args[0]))
+	attr := byte(UnN(args[1]))
+	extra := int(UnN(args[2]))
+	trailing := UnN(args[3]) != 0
+	v := &uefigen.Vol{FSGUID: uefigen.FFS3, Attrs: 0x800 | 0x4FEFF, Revision: 2, BlockSize: 4096}
+	small := &uefigen.File{GUID: uefigen.GenGUID(r), Type: 0xC5, State: 0xF8, Body: r.Bytes(40)}
+	big := &uefigen.File{GUID: uefigen.GenGUID(r), Type: 6, Attr: attr, State: 0xF8, Body: make([]byte, 0x1000000+extra)}
+	for i := 0; i < len(big.Body); i += 4093 {
+		big.Body[i] = byte(r.U64())
+	}
+	v.Files = []*uefigen.File{small, big}
+	if trailing {
+		v.Files = append(v.Files, &uefigen.File{GUID: uefigen.GenGUID(r), Type: 0xC6, State: 0xF8, Body: r.Bytes(17)})
+	}
+	v.FreeSpace = 4096
+	img, _ := uefigen.EmitVol(v)
+	return PSaveIdentity([]string{H(img)})
+}
+
 func RegisterAll() {
 	common := map[string]Op{
 		"parse": OpParse, "save": OpSave, "saveclass": OpSaveClass,
 		"p_save_identity": PSaveIdentity, "p_partition": PPartition, "p_total": PTotal,
+		"p_big_identity": PBigIdentity,
 	}
 	for k, v := range common {
 		Register(k, v)
